@@ -224,7 +224,7 @@ Definition g_fit : graph :=
     (* 28 *) plain [26; 21; 22; 23; 27]                   (* fit.log_evidence *)
   ].
 
-(* a chain of dataset derivations (dataset/imaging/dataset.py): ds2 = ds.apply_over_sampling(osd) keeps the source's arrays;
+(* chains of dataset derivations (dataset/imaging/dataset.py): ds2 = ds.apply_over_sampling(osd) keeps the source's arrays;
    ds3 = ds2.apply_noise_scaling(mask) edits `ds2.noise_map.native` -- a new Array2D -- in place.  A derived dataset bound to a
    variable by the user is a cached node.  [native_aliases]: the seeded defect C11_1 (Array2D.native returning the object itself
    when it is stored natively) *)
@@ -249,7 +249,11 @@ Definition g_chain (native_aliases : bool) : graph :=
     (* 17 *) plain [15];                                  (* ds3.data *)
     (* 18 *) cached [15];                                 (* ds3.grids *)
     (* 19 *) plain [15];                                  (* ds3.signal_to_noise_map *)
-    (* 20 *) plain [9; 1]                                 (* ds2.signal_to_noise_map *)
+    (* 20 *) plain [9; 1];                                (* ds2.signal_to_noise_map *)
+    (* 21 *) cached [0; 1; 2; 4];                         (* ds4 = ds.apply_mask(mask): new arrays from `unmasked.data.native` *)
+    (* 22 *) cached [21];                                 (* ds4.grids *)
+    (* 23 *) plain [21];                                  (* ds4.data *)
+    (* 24 *) plain [21]                                   (* ds4.signal_to_noise_map *)
   ].
 
 (* Interferometer -> inversion through the factory (mapping formalism): inversion/inversion/interferometer/abstract.py, mapping.py *)
